@@ -1,6 +1,7 @@
 // C06: batch_cast / to_int / to_float / broadcast_as / load_as / store_as for every accepted
 // (From, To) pair, bitwise_cast between all element types of the register.
 #include "xv_harness.hpp"
+#include "xv_twin.hpp"
 
 #include <deque>
 #include <string>
@@ -140,9 +141,33 @@ namespace xv
     template <class... From>
     void reg_all(types<From...>) { (reg_from<From>(all_types {}), ...); }
 
+    // twin element types (xv_twin.hpp) as source (".twinfrom") and as destination (".twinto") of every conversion
+    template <class W, class U>
+    void reg_twin_pair()
+    {
+        if constexpr (std::is_same<W, char>::value) // simd_return_type accepts a twin as memory type only for char
+            reg<op_id, U, B<U>, LA<W, U>>("C06", keep(std::string("load_as.") + tname<W>() + ".twinfrom"));
+        reg<op_id, W, B<W>, LA<U, W>>("C06", keep(std::string("load_as.") + tname<U>() + ".twinto"));
+        reg<op_id, U, SA<W, U>, B<W>>("C06", keep(std::string("store_as.") + tname<W>() + ".twinfrom"));
+        reg<op_id, W, SA<U, W>, B<U>>("C06", keep(std::string("store_as.") + tname<U>() + ".twinto"));
+        if constexpr (sizeof(W) == sizeof(U))
+        {
+            reg<op_cast<U>, U, B<U>, B<W>>("C06", keep(std::string("batch_cast.") + tname<W>() + ".twinfrom"));
+            reg<op_cast<W>, W, B<W>, B<U>>("C06", keep(std::string("batch_cast.") + tname<U>() + ".twinto"));
+        }
+        reg<op_bitcast<U>, U, BY<U>, BY<W>>("C06", keep(std::string("bitwise_cast.") + tname<W>() + ".to." + tname<U>() + ".twinfrom"));
+        reg<op_bitcast<W>, W, BY<W>, BY<U>>("C06", keep(std::string("bitwise_cast.") + tname<U>() + ".to." + tname<W>() + ".twinto"));
+    }
+    template <class W, class... U>
+    void reg_twin_from(types<U...>) { (reg_twin_pair<W, U>(), ...); }
+    template <class... W>
+    void reg_twins(types<W...>) { (reg_twin_from<W>(all_types {}), ...); }
+
     void register_ops()
     {
         reg_all(all_types {});
+        reg_twins(twin_types {});
+
         reg<op_to_int, int32_t, B<int32_t>, B<float>>("C06", "to_int");
         reg<op_to_int, int64_t, B<int64_t>, B<double>>("C06", "to_int");
         reg<op_to_float, float, B<float>, B<int32_t>>("C06", "to_float");
